@@ -28,6 +28,7 @@ def repo_state():
 
 FINDER_BOUNDS = {
     'find_rel_pair': 'every operator/modifier combination x every pair of ranges over a 9-character text',
+    'find_rel_sets': 'every operator/modifier combination x subject sets of 1-2 (one of 3) of 8 ranges of a 9-character text, in insertion order and sorted, against every such reference range, reference set (also the empty one) - set tests vs. the appendix-A set semantics',
     'find_offset_accept': 'all cursor pairs in -(L+2)..L+2, both alignments, L = 9',
     'find_limit_slice': 'n <= 6 items, begin/end in -8..8',
     'find_related_text': 'every operator over about 40 known selections of a 9-character text',
@@ -35,7 +36,7 @@ FINDER_BOUNDS = {
     'find_strip_ids': '0-4 annotations with data, one of them removed or none, strip annotation ids / data ids / both; every id, handle and temporary id looked up',
     'find_reindex_ids': 'every subset of 6 annotations removed, then reindex()',
     'find_store_consistency': '12 annotations over all nine selector kinds, 3 index configurations, every single and double annotation removal, 10 other removals, 6 protect_text histories',
-    'find_segmentation': 'every set of <= 3 of 8 selections over a 10-character text, milestone intervals 0/2/3',
+    'find_segmentation': 'every set of <= 3 of 8 selections over a 10-character text, milestone intervals 0/2/3; the whole text and 6 ranges of it',
     'find_utf8': '8 texts of 1-4 byte codepoints, 5 milestone intervals, every position and every sub-selection',
     'find_relative_offsets': 'every selection x every container over 9 positions x 4 offset modes; every cursor pair against every container',
     'find_subselectors': 'every sequence of 2-3 of 20 simple targets (7 text selections of two resources, annotations without text, with their whole text and with a sub-part of it, resources, dataset, key, data) x Multi/Composite/Directional',
